@@ -260,6 +260,58 @@ def check_registry(rep, prog, runs):
               "the loaded message registry is modified during decoding")
 
 
+ONE_SHOT_OPS = ("call:filter", "call:map", "zip", "enumerate", "reversed", "call:iter", "file", "call:os.scandir", "call:os.walk")
+
+
+def one_shot(t):
+    from ..interp import GenV
+    if isinstance(t, GenV):
+        return "generator object"
+    if isinstance(t, Op) and (t.op in ONE_SHOT_OPS or t.op.startswith("call:itertools.")):
+        return t.op.replace("call:", "") + "(...)"
+    return None
+
+
+def check_one_shot_iterators(rep, prog, runs):
+    """an iterator kept in state that outlives one decode is consumed by the first decode that walks it: the second
+    decode sees what is left (nothing, or the tail)"""
+    rule = "C19.R3.shared-state-writes"
+    from ..interp import Instance
+    seen = set()
+    n = 0
+    for label, I in runs:
+        for oid, o in I.heap.items():
+            if not getattr(o, "shared", None):
+                continue
+            vals = []
+            if isinstance(o, Instance):
+                vals = [("attribute ." + k, v) for k, v in o.attrs.items()]
+            elif isinstance(o, DictObj):
+                vals = [("entry %r" % (k,), v) for k, v, g, lc in o.entries]
+            elif isinstance(o, ListObj):
+                vals = [("element", (it[1] if it[0] == "v" else it[2])) for it in o.items]
+            for what, v in vals:
+                alts = []
+
+                def lv(t):
+                    if isinstance(t, Ite):
+                        lv(t.a), lv(t.b)
+                    else:
+                        alts.append(t)
+                lv(v)
+                for a in alts:
+                    kind = one_shot(a)
+                    key = (getattr(o, "shared", None), what, kind)
+                    if key in seen:
+                        continue
+                    seen.add(key)
+                    n += 1
+                    rep.check(kind is None, rule, "%s: %s is not a one-shot iterator" % (o.shared, what), str(o.shared), what,
+                              "%s of an object shared by all decodes (%s) holds a one-shot iterator (%s): the first decode that walks "
+                              "it consumes it and every later decode sees the remainder" % (what, o.shared, kind))
+    rep.count("values held by shared objects", n)
+
+
 def run(rep, prog, thorough):
     rep.explanation = (
         "All decode entry points (every section kind, both header decoders, every shipped plugin entry) are interpreted and "
@@ -273,4 +325,5 @@ def run(rep, prog, thorough):
     check_decode_state(rep, prog, runs)
     check_inventory(rep, prog, runs)
     check_registry(rep, prog, runs)
+    check_one_shot_iterators(rep, prog, runs)
     check_dir_loops(rep, prog)
